@@ -508,6 +508,17 @@ def enumerated(tier):
         for what, tid in (("ping", 7), ("gettime", 36), ("discreq", 5)):
             subs = [{"op": "sub", "id": f"c{k}", "types": [tid, 26], "script": []} for k in range(3)]
             yield {"kind": "history", "noise": noise, "ops": subs + [{"op": "peer", "what": what}, {"op": "msg", "type": 26, "payload": {"key": 2}}]}
+    # exactly one (two, three) subscribers of a type, one of which changes the subscription set of that very type from
+    # inside its callback, on its first or second invocation; then more messages
+    for noise in (False, True):
+        for n in (1, 2, 3):
+            for do in ("unsub_self", ["sub", [26]], ["sub", [26, 25]], ["unsub", "c1"]):
+                for at in (1, 2):
+                    if do == ["unsub", "c1"] and n < 2:
+                        continue
+                    subs = [{"op": "sub", "id": f"c{k}", "types": [26], "script": [{"at": at, "do": do}] if k == 0 else []} for k in range(n)]
+                    msgs = [{"op": "msg", "type": 26, "payload": {"key": k}, "merge": k % 2 == 0} for k in range(4)]
+                    yield {"kind": "history", "noise": noise, "ops": subs + msgs}
     # two request/response waiters and a plain subscriber on one type, answers coalesced in one chunk
     for noise in (False, True):
         for n in (2, 3):
